@@ -1132,7 +1132,15 @@ impl Lowerer {
                 if let Some((cid, _)) = input_columns.get(&name) {
                     *cid
                 } else {
-                    panic!("cannot find cid by id={id} and name={name:?}");
+                    // the table instance has no column of that name: the column is unnamed in the
+                    // instance and got its name later (append takes it from the bottom relation),
+                    // or it was inferred into another input of the relation variable
+                    let name = name.as_single().unwrap().clone().unwrap_or_default();
+                    return Err(Error::new_simple(format!(
+                        "cannot refer to column `{name}` of this table by name"
+                    ))
+                    .with_span(self.root_mod.span_map.get(&id).cloned())
+                    .push_hint("name the column where the table is defined"));
                 }
             }
             None => {
